@@ -99,6 +99,8 @@ def gen_cases(tier, seed):
         d = [c04._mk(l, e, rng, cen[1]) for l, e in ket]
         for arr_name, order in (("(tt|dd)", [t[0], t[1], d[0], d[1]]), ("(td|td)", [t[0], d[0], t[1], d[1]])):
             cases.append({"kind": "quartet", "shells": [dict(s) for s in order], "classes": ["quartet", "ill:" + name, "arr:" + arr_name], "cost": 800})
+        if name in ("ss|dd 1e5/0.1", "ss|ff 1e3/0.2", "pp|dd 1e4/0.1", "ss|dd contracted core"):
+            cases.append({"kind": "quartet", "shells": [dict(s, c=list(cen[0])) for s in (t[0], t[1], d[0], d[1])], "classes": ["quartet", "ill:" + name, "arr:(tt|dd)", "one-centre"], "cost": 800})
         if any(len(s_["e"]) > 1 for s_ in t + d):
             cases.append({"kind": "quartet", "shells": [c04._rev(s) for s in (t[0], t[1], d[0], d[1])], "classes": ["quartet", "ill:" + name, "arr:(tt|dd)", "primitives-reversed"], "cost": 800})
     rng = bases.rng_for("C11", "ill4")
